@@ -48,11 +48,11 @@ def run(ctx):
                 if not kc.concrete:
                     raise AnalysisError("symbolic %s part over %s does not fold: %s" % (role, e, kc.abstract_reason))
                 part_erasure(ctx, kc, "C05.symbolic-part", symbolic=True)
-    characterize_rule(ctx, "C05.characterize")
+    ctx.guard(characterize_rule, ctx, "C05.characterize")
     from ..kernels import run_kernels
     run_kernels(ctx, ["K10", "K1"], "C05")
     from ..rules_misc import k19_match
-    k19_match(ctx, "C05")
+    ctx.guard(k19_match, ctx, "C05")
     # depends on C06's rule
     from ..rules_ast import persistent_state_rule
-    persistent_state_rule(ctx, "C05.own-pattern")
+    ctx.guard(persistent_state_rule, ctx, "C05.own-pattern")
